@@ -47,9 +47,17 @@ def main():
             c = subprocess.run(f'/verif/check {prop} --tier {tier} -no-evidence {extra}', shell=True, text=True, capture_output=True, env=env)
             out = c.stdout + c.stderr
             detected = c.returncode == 1 and 'VIOLATION property=' + prop in out
+            by_prop = prop if detected else None
+            # a change may live in code owned by another property's check (e.g. a storage defect seeded for the cache property)
+            if not detected and meta.get('also_check'):
+                p2 = meta['also_check']
+                c2 = subprocess.run(f'/verif/check {p2} --tier {tier} -no-evidence', shell=True, text=True, capture_output=True, env=env)
+                out2 = c2.stdout + c2.stderr
+                if c2.returncode == 1 and 'VIOLATION property=' + p2 in out2:
+                    detected, by_prop, out, c = True, p2, out2, c2
             lemmas = sorted(set(re.findall(r'counterexample lemma=(\S+)', out)))
             incon = sorted(set(re.findall(r'INCONCLUSIVE\S* lemma=(\S+)', out)))
-            results.append({'seed': name, 'property': prop, 'detected': detected, 'caught_by': lemmas, 'inconclusive': incon,
+            results.append({'seed': name, 'property': prop, 'detected': detected, 'detected_by_check': by_prop, 'caught_by': lemmas, 'inconclusive': incon,
                             'exit': c.returncode, 'wall_s': round(time.time() - t0, 1), 'summary': meta.get('summary', '')})
             print(f"{name}: property={prop} detected={detected} by={lemmas} inconclusive={incon} ({round(time.time()-t0,1)}s)")
             if not detected and '-v' in args:
